@@ -378,6 +378,22 @@ fn exec_op(
                 Err(e) => json!({"err": e.to_string()}),
             }
         }
+        "append_pair" => {
+            // two frames of one topic back to back (the first without content, the second with): nothing else can be
+            // appended in between by this process's own components unless they are faster than two calls
+            let ctx = parse_id(&req["ctx"]).unwrap_or(xs::store::ZERO_CONTEXT);
+            let topic = req["topic"].as_str().unwrap_or("pair");
+            let hash = match store.cas_insert_sync(unb64(req["second_content_b64"].as_str().unwrap_or(""))) {
+                Ok(h) => h,
+                Err(e) => return json!({"err": e.to_string()}),
+            };
+            let first = store.append(Frame::builder(topic, ctx).build());
+            let second = store.append(Frame::builder(topic, ctx).hash(hash).build());
+            match (first, second) {
+                (Ok(a), Ok(b)) => json!({"ok": [a, b]}),
+                (a, b) => json!({"err": format!("{:?} / {:?}", a.err().map(|e| e.to_string()), b.err().map(|e| e.to_string()))}),
+            }
+        }
         "append_nested" => {
             // meta nested `depth` levels, built here because the transport itself is JSON
             let depth = req["depth"].as_u64().unwrap_or(0) as usize;
